@@ -129,7 +129,18 @@ func (t *GoType) HasDirectMethod(name string) bool {
 	return t.isDirectMethod[name]
 }
 
+// GetConverter returns the TypeConverter for this type, creating and caching
+// it on first use. It is safe for concurrent use by multiple goroutines.
 func (t *GoType) GetConverter() (TypeConverter, error) {
+	goTypeMutex.Lock()
+	defer goTypeMutex.Unlock()
+
+	return t.getConverter()
+}
+
+// getConverter is GetConverter for callers that already hold goTypeMutex: it
+// reads and writes the type registries and the converter field of the type.
+func (t *GoType) getConverter() (TypeConverter, error) {
 	if t.converter != nil {
 		return t.converter, nil
 	}
